@@ -285,6 +285,15 @@ def literal_passthrough(ctx):
     final = [r for r in rets if any(r is s for s in u.node.body)]
     ctx.require(len(final) == 1 and isinstance(final[0].value, ast.Name), 'mode(): final `return <result>` not found')
     rv = final[0].value.id
+    # the only other way out is the memo hit: any further early return (``if not spec: return
+    # spec``) hands a container back without rebuilding it
+    for r in rets:
+        if r is final[0]:
+            continue
+        v = r.value
+        hit = isinstance(v, ast.Subscript) and isinstance(v.value, ast.Attribute) and v.value.attr == 'cache'
+        ctx.ob(hit, u, 'an early return is a memo hit: %s' % norm(r),
+               '' if hit else 'containers taking this exit are returned as the spec\'s own object (shared between evaluations)', node=r)
     defs = [n for n in u.own_nodes() if isinstance(n, ast.Assign) and any(
         is_name(t, rv) for t in n.targets)]
     plain = [d for d in defs if is_name(d.value, spec)]
